@@ -325,5 +325,39 @@ pub fn run(seed: u64, paths: Option<&str>, sample: usize, random_seqs: usize, ou
         run.table.truncate(2);
         run.updates.truncate(2);
     }
+    // the array completely full (88 of 88 slots initialized, in a random order), then modified, queried and emptied again:
+    // the last slots sit at the very end of the largest possible encoding
+    for q in 0..(random_seqs / 25).max(2) {
+        use rand::seq::SliceRandom;
+        let (start, spacing) = configs[(q + 3 + seed as usize) % configs.len()];
+        let mut a = Arrays::new(start, spacing);
+        run.out.emit(json!({"k": "ta_reset", "start": start, "spacing": spacing, "path": 0}), true, "reset".into());
+        let mut order: Vec<i32> = (0..88).collect();
+        order.shuffle(&mut r);
+        if q % 2 == 0 {
+            // slot 87 last / first alternately
+            order.retain(|s| *s != 87);
+            if q % 4 == 0 { order.push(87) } else { order.insert(0, 87) }
+        }
+        for (n_done, slot) in order.iter().enumerate() {
+            let (n, u) = run.payload(&mut r, true, 0);
+            run.ev_update(&mut a, start + slot * spacing as i32, &n, &u, false);
+            if n_done >= 85 {
+                run.queries(&a, &mut r, &[0, 1, 43, 86, 87, *slot]);
+            }
+        }
+        for slot in [87, 86, 0, 44] {
+            let (n, u) = run.payload(&mut r, true, 0);
+            run.ev_update(&mut a, start + slot * spacing as i32, &n, &u, false);
+        }
+        run.queries(&a, &mut r, &[0, 63, 64, 86, 87]);
+        order.shuffle(&mut r);
+        for slot in order.iter().take(r.gen_range(3..88)) {
+            run.ev_update(&mut a, start + slot * spacing as i32, "none", &TickUpdate::default(), false);
+        }
+        run.queries(&a, &mut r, &[0, 86, 87]);
+        run.table.truncate(2);
+        run.updates.truncate(2);
+    }
     run.out.w.flush().unwrap();
 }
